@@ -4,7 +4,7 @@ from plint.flow import Flow
 from plint.symx import C
 from plint.ir import calls, strip_casts, cv, line, show, root_var, walk
 from plint.units import AnalysisBroken
-from rules.treecommon import TreeRun, VARIANTS, variant_roles, fnptr_name
+from rules.treecommon import TreeRun, VARIANTS, variant_roles, fnptr_name, tree_view
 
 
 def fn_of_ref(e):
@@ -132,7 +132,7 @@ def run(prog, rep):
     for (un, tag) in VARIANTS:
         u = prog.unit(un)
         for op, kidx in (("insert", 5), ("remove", 5)):
-            fn = u.fn("p_tree_%s_%s" % (tag, op))
+            fn = tree_view(u.fn("p_tree_%s_%s" % (tag, op)))
             ps = fn.param_names()
             descent_check(rep, fn, lambda c, ps=ps: fnptr_name(c) == ps[1], ps[kidx], lambda a, ps=ps: root_var(a) == ps[2])
     rep.floor("C12.2", 7)
@@ -377,7 +377,7 @@ def run(prog, rep):
                        "line %d: under `%s` the equal edge stores into ->%s and the other edge into ->%s: the replacement is hung on the wrong side (the node is lost or a sibling subtree is overwritten)" % (
                            line(c), show(c), firsts[eq_edge][0], firsts[other][0]), firsts[eq_edge][1])
         # (b) predecessor / successor walk in remove
-        fn = u.fn("p_tree_%s_remove" % tag)
+        fn = tree_view(u.fn("p_tree_%s_remove" % tag))
         loops = fn.loops()
         for hdr, body in loops:
             hb = fn.blocks[hdr]
@@ -402,7 +402,7 @@ def run(prog, rep):
                        line(c), inf, "/".join(sorted(x or "?" for x in sf)), m["field"]), c)
         # (c) slot owner bookkeeping in insert (variants with parent links)
         if tag != "bst":
-            fn = u.fn("p_tree_%s_insert" % tag)
+            fn = tree_view(u.fn("p_tree_%s_insert" % tag))
             takes = [(b, i, n) for (b, i, n) in fn.stmts() if n["k"] == "asg" and strip_casts(n["r"]) is not None and strip_casts(n["r"])["k"] == "un" and strip_casts(n["r"])["op"] == "&"
                      and field_of(strip_casts(n["r"])["e"]) in ("left", "right")]
             pstores = [n for (b, i, n) in fn.nodes() if n["k"] == "asg" and field_of(n["l"]) == "parent"]
